@@ -3,7 +3,8 @@
 (* parse_method.go: GetMethodNo, SIPMethod.Name;  parse_headers.go:          *)
 (* GetHdrType.  Auto = hash + bucket scan as the code does it (buckets are   *)
 (* filled in table order by init()); Decl = membership in the literal table. *)
-(* LK_PANIC is returned where the Go code indexes n[0] of an empty name.     *)
+(* An empty name is classified as "other" (since fix 2ac3ac8; before, the    *)
+(* code indexed n[0] and panicked -- LK_PANIC is kept for the model of that). *)
 (***************************************************************************)
 EXTENDS Lex, Tables
 
@@ -15,7 +16,7 @@ RECURSIVE MthScan(_, _, _)
 MthScan(n, h, m) == IF m > Len(MethodNames) THEN MOther
                     ELSE IF HashMth(MethodNames[m]) = h /\ MethodNames[m] = n THEN m
                     ELSE MthScan(n, h, m + 1)
-GetMethodNo(n) == IF Len(n) = 0 THEN LK_PANIC ELSE MthScan(n, HashMth(n), 1)
+GetMethodNo(n) == IF Len(n) = 0 THEN MOther ELSE MthScan(n, HashMth(n), 1)
 \* Decl (C16): the known method exactly for the exact upper-case name, MOther otherwise -- total
 GetMethodNoDecl(n) == IF \E m \in 1..Len(MethodNames) : MethodNames[m] = n
                       THEN CHOOSE m \in 1..Len(MethodNames) : MethodNames[m] = n ELSE MOther
@@ -29,7 +30,7 @@ RECURSIVE HdrScan(_, _, _)
 HdrScan(n, h, k) == IF k > Len(HdrNameTable) THEN HdrOther
                     ELSE IF HashHdr(HdrNameTable[k].n) = h /\ CmpEq(n, HdrNameTable[k].n) THEN HdrNameTable[k].t
                     ELSE HdrScan(n, h, k + 1)
-GetHdrType(n) == IF Len(n) = 0 THEN LK_PANIC ELSE HdrScan(n, HashHdr(n), 1)
+GetHdrType(n) == IF Len(n) = 0 THEN HdrOther ELSE HdrScan(n, HashHdr(n), 1)
 GetHdrTypeDecl(n) == IF \E k \in 1..Len(HdrNameTable) : CmpEq(n, HdrNameTable[k].n)
                      THEN HdrNameTable[CHOOSE k \in 1..Len(HdrNameTable) : CmpEq(n, HdrNameTable[k].n)].t
                      ELSE HdrOther
